@@ -179,6 +179,7 @@ func netStreams(c *mon.Ctx, h *hostile.Harness) {
 		defer stop()
 		done := make(chan struct{})
 		received := atomic.Int64{}
+		var perr atomic.Value
 		k.Stage([]byte(mode))
 		k.Eval(1)
 		k.Count("calls:"+entry, 1)
@@ -194,7 +195,9 @@ func netStreams(c *mon.Ctx, h *hostile.Harness) {
 			}()
 		} else {
 			go func() {
-				w.n.Exec.VerifProcess(ctx, forged, e.info.ID) //nolint:errcheck
+				if err := w.n.Exec.VerifProcess(ctx, forged, e.info.ID); err != nil {
+					perr.Store(err.Error())
+				}
 				close(done)
 			}()
 		}
@@ -217,6 +220,9 @@ func netStreams(c *mon.Ctx, h *hostile.Harness) {
 			}
 		}
 		wit := map[string]any{"mode": mode, "getBlocksFromId_requests": e.requests(), "identical_exchanges_in_a_row": e.stalled(), "items_handed_to_the_syncer": received.Load()}
+		if e, ok := perr.Load().(string); ok {
+			wit["process_error"] = e
+		}
 		switch verdict {
 		case "terminated":
 			k.Count("download_terminated:"+mode, 1)
